@@ -525,6 +525,10 @@ def run(ctx):
              and ctx.consts.get("pyxform.constants", "FIELD_LIST") == "field-list", "table-list:constants", "appearance keywords are spelled as documented", "pyxform/constants.py")
     from ..rowloop import type_branch_obligations
     type_branch_obligations(ctx, r6, "C04.R6")
+    # body:: / bind:: columns carry the attribute's own name to the control / bind, capitals included (shared with C13.R3)
+    from . import c13 as _c13
+    from .c08 import _take as _take4
+    _take4(r6, _c13.run(ctx), "C13.R3", lambda c: c.startswith("process_header[") and ("body::" in c or "bind::" in c or "control" in c))
     rules.append(r6)
     from .c02 import tree_agreement_rule
     rules.append(tree_agreement_rule(ctx, "C04", "C04.R7"))
